@@ -32,6 +32,7 @@ import (
 	"strings"
 	"syscall"
 
+	f3 "github.com/filecoin-project/go-f3"
 	"github.com/filecoin-project/go-f3/gpbft"
 	"github.com/filecoin-project/go-f3/internal/verifh/lib/vh"
 	"github.com/filecoin-project/go-f3/internal/writeaheadlog"
@@ -628,6 +629,53 @@ func mkGMessage(rng *vh.Rng) *gpbft.GMessage {
 	return m
 }
 
+// walEntryChecks: the host's record type (pointer to a GMessage) through the real log: every entry read back —
+// live and after a restart, with and without a torn tail — must be the message appended at that position.
+func walEntryChecks(out *vh.Out, rng *vh.Rng, root string, n int) {
+	for i := 0; i < n; i++ {
+		dir := filepath.Join(root, fmt.Sprintf("we%d", i))
+		k := 2 + rng.Intn(6)
+		var msgs []*gpbft.GMessage
+		var encs [][]byte
+		for j := 0; j < k; j++ {
+			m := mkGMessage(rng)
+			var b bytes.Buffer
+			if err := m.MarshalCBOR(&b); err != nil {
+				continue
+			}
+			msgs = append(msgs, m)
+			encs = append(encs, b.Bytes())
+		}
+		cut := 0
+		if rng.Bool() && len(encs) > 0 {
+			cut = 1 + rng.Intn(len(encs[len(encs)-1])-1) // inside the last record
+		}
+		live, re, err := f3.VerifWalEntryRoundTrip(dir, msgs, cut)
+		_ = os.RemoveAll(dir)
+		same := func(got []*gpbft.GMessage, want int) string {
+			if len(got) != want {
+				return fmt.Sprintf("count:%d/%d", len(got), want)
+			}
+			for j := range got {
+				var b bytes.Buffer
+				if got[j] == nil || got[j].MarshalCBOR(&b) != nil || !bytes.Equal(b.Bytes(), encs[j]) {
+					return fmt.Sprintf("entry:%d", j)
+				}
+			}
+			return "ok"
+		}
+		wantRe := len(msgs)
+		if cut > 0 {
+			wantRe--
+		}
+		res := "err"
+		if err == nil {
+			res = fmt.Sprintf("live=%s reopened=%s", same(live, len(msgs)), same(re, wantRe))
+		}
+		out.Line("walentry n=%d cut=%d => %s", len(msgs), cut, res)
+	}
+}
+
 func codecChecks(out *vh.Out, rng *vh.Rng, n int) {
 	for i := 0; i < n; i++ {
 		var enc, enc2 []byte
@@ -869,6 +917,7 @@ func main() {
 	out.Line("cfg rotateAt=%d", 1<<20)
 	syncParent(out, root)
 	codecChecks(out, rng, map[bool]int{false: 60, true: 600}[thorough])
+	walEntryChecks(out, rng.Fork(77), root, map[bool]int{false: 40, true: 400}[thorough])
 
 	var ids uint64
 	forks := 0
